@@ -306,7 +306,7 @@ void AddStructSymbol(char const* pName, LargeWord Value) {
     }
 }
 
-void BumpStructLength(PStructRec StructRec, LongInt Length) {
+void BumpStructLength(PStructRec StructRec, LargeInt Length) {
     if (StructRec->TotLen < Length) {
         StructRec->TotLen = Length;
     }
